@@ -144,7 +144,6 @@ theorem attest_outcome (s : St) (id : Nat) (w : Winner) : Outcome s id w (attest
           · refine .unchanged _ ?_; decide
           · rename_i hpr
             split
-            · refine .unchanged _ ?_; decide
             · exact .rejected p _ rfl (.inr rfl)
             · rename_i hv
               split
@@ -466,24 +465,16 @@ theorem exact_calldata_binds_values (m : QMsg) (data : Bytes) (d : Bytes × List
     exact ⟨hv.symm, i, h1, h2, hc.symm⟩
 
 /-- the typing side condition of `exact_calldata_binds_values` holds for logic calls with
-well-typed fields (the other actions are analogous: `UV.wf`, `USC.wf`, `CH.wf`). -/
-theorem slc_delivered_typed (f : SLCFields) (hf : SLC.wf f = true) (vals : List V)
-    (hv : SLC.deliveredVals f = some vals) (c : V) (hc : hasType consensusTy c = true) :
-    hasTypeArgs (consensusTy :: SLC.deliveredTys) (c :: vals) = true := by
+well-typed fields (with or without fees: `feesOrDefault`). -/
+theorem slc_delivered_typed (f : SLCFields) (hf : SLC.wf f = true) (c : V)
+    (hc : hasType consensusTy c = true) :
+    hasTypeArgs (consensusTy :: SLC.deliveredTys) (c :: SLC.deliveredVals f) = true := by
   simp only [SLC.wf, Bool.and_eq_true, decide_eq_true_eq] at hf
   obtain ⟨⟨⟨⟨⟨⟨⟨h1, h2⟩, h3⟩, h4⟩, h5⟩, h6⟩, h7⟩, h8⟩ := hf
-  unfold SLC.deliveredVals at hv
-  split at hv
-  · cases hv
-  · rename_i fe hfe
-    injection hv with hv
-    subst hv
-    rw [hfe] at h3
-    have hf := fees_lt (some fe) h3
-    simp only [feesOrDefault] at hf
-    rw [hasTypeArgs_cons, hc]
-    simp [hasTypeArgs, SLC.deliveredTys, callTy, feeTy, callV, feeV, hasType, hasTypes,
-      h1, h2, h4, h5, h7, h8, hf.1, hf.2.1, hf.2.2]
+  have hf := fees_lt _ h3
+  rw [hasTypeArgs_cons, hc]
+  simp [hasTypeArgs, SLC.deliveredTys, SLC.deliveredVals, callTy, feeTy, callV, feeV, hasType, hasTypes,
+    h1, h2, h4, h5, h7, h8, hf.1, hf.2.1, hf.2.2]
 
 /-- the same side condition for update-valset, user contract deployment and compass handover -/
 theorem uv_delivered_typed (f : UVFields) (hf : UV.wf f = true) (c : V)
@@ -498,23 +489,15 @@ theorem uv_delivered_typed (f : UVFields) (hf : UV.wf f = true) (c : V)
     Bool.and_eq_true]
   exact ⟨h5, h7, by omega⟩
 
-theorem usc_delivered_typed (f : USCFields) (hf : USC.wf f = true) (vals : List V)
-    (hv : USC.deliveredVals f = some vals) (c : V) (hc : hasType consensusTy c = true) :
-    hasTypeArgs (consensusTy :: USC.deliveredTys) (c :: vals) = true := by
+theorem usc_delivered_typed (f : USCFields) (hf : USC.wf f = true) (c : V)
+    (hc : hasType consensusTy c = true) :
+    hasTypeArgs (consensusTy :: USC.deliveredTys) (c :: USC.deliveredVals f) = true := by
   simp only [USC.wf, Bool.and_eq_true, decide_eq_true_eq] at hf
   obtain ⟨⟨⟨⟨⟨⟨⟨h1, h2⟩, h3⟩, h4⟩, h5⟩, h6⟩, h7⟩, h8⟩ := hf
-  unfold USC.deliveredVals at hv
-  split at hv
-  · cases hv
-  · rename_i fe hfe
-    injection hv with hv
-    subst hv
-    rw [hfe] at h3
-    have hf := fees_lt (some fe) h3
-    simp only [feesOrDefault] at hf
-    rw [hasTypeArgs_cons, hc]
-    simp [hasTypeArgs, USC.deliveredTys, feeTy, feeV, hasType, hasTypes,
-      h1, h2, h4, h5, h7, h8, hf.1, hf.2.1, hf.2.2]
+  have hf := fees_lt _ h3
+  rw [hasTypeArgs_cons, hc]
+  simp [hasTypeArgs, USC.deliveredTys, USC.deliveredVals, feeTy, feeV, hasType, hasTypes,
+    h1, h2, h4, h5, h7, h8, hf.1, hf.2.1, hf.2.2]
 
 theorem ch_delivered_typed (f : CHFields) (hf : CH.wf f = true) (c : V)
     (hc : hasType consensusTy c = true) :
@@ -681,16 +664,28 @@ theorem accepted_message_leaves_queue (s : St) (id : Nat) (w w' : Winner)
       exact this (List.mem_map.2 ⟨x, hx, by simpa using hxid⟩)
     simp only [attest, hnone]
 
-/-- **nil_fees_panics.** Watch item: evidence for a fee-paying message whose fees were never set
-(no gas estimate elected yet) makes `VerifyAgainstTX` dereference a nil pointer — modelled as the
-result `panic`; it is reached only after the receipt gate and the processed check. -/
-theorem nil_fees_panics (s : St) (id : Nat) (m : QMsg) (f : SLCFields) (p : TxProof)
-    (hm : findMsg s.queue id = some m) (ha : m.action = .slc f) (hf : f.fees = none)
-    (hr : p.receipt = some 1) (hp : p.hash ∉ s.processed) :
-    attest s id (.tx p) = (s, .panic) := by
-  have hv : verifyAgainstTx m p.data = .panic := by
-    simp [verifyAgainstTx, ha, isUp, Action.delivered, SLC.deliveredVals, hf]
-  simp [attest, hm, hr, hp, hv]
+/-- **early_evidence_is_processed.** Evidence for a fee-paying message whose fees were never set
+(no gas estimate elected yet) is processed like any other evidence: verification compares the call
+data against the encoding with the DEFAULT fees (`feesOrDefault`, the values that were signed) and
+the result is one of the ordinary outcomes.  (Before /repo commit cab3e325 `VerifyAgainstTX`
+dereferenced the nil `Fees` here and the consensus end blocker panicked; regression witness on the
+field level: `SignBytes.slc_prefix_nil_fees_undefined`.) -/
+theorem early_evidence_is_processed (m : QMsg) (f : SLCFields) (data : Bytes)
+    (ha : m.action = .slc f) (hf : f.fees = none) :
+    (verifyAgainstTx m data = .ok ↔
+      ∃ i, 1 ≤ i ∧ i ≤ m.sigs.length ∧
+        data = calldata selSubmitLogicCallD SLC.deliveredTys
+          [callV (f.contract, f.payload), feeV defaultFees f.sender, .word f.id, .word f.deadline, .word f.relayer]
+          (consensusV m.valset (m.sigs.take i))) := by
+  rw [verify_ok_iff_exact]
+  unfold ExactFor
+  simp only [ha, isUp, Bool.false_eq_true, false_and, false_or, true_and, Action.delivered,
+    Option.some.injEq, SLC.deliveredVals, hf, feesOrDefault]
+  constructor
+  · rintro ⟨d, i, rfl, h1, h2, h3⟩
+    exact ⟨i, h1, h2, h3⟩
+  · rintro ⟨i, h1, h2, h3⟩
+    exact ⟨_, i, rfl, h1, h2, h3⟩
 
 /-! ## non-vacuity -/
 
@@ -710,6 +705,16 @@ def exP : TxProof := { hash := 77, data := exData, receipt := some 1, deployLog 
 
 set_option maxRecDepth 100000 in
 example : (attest exS 9 (.tx exP)).2 = .ok := by decide
+-- early evidence: the same message before its fees were set is attested against the default fees
+def exMNil : QMsg := { exM with action := .slc { exF with fees := none } }
+def exDataNil : Bytes :=
+  calldata selSubmitLogicCallD SLC.deliveredTys
+    [callV (0x11, [1, 2, 3]), feeV defaultFees 0x22, .word 9, .word 1700000000, .word 0x33]
+    (consensusV exVs (exSigs.take 2))
+set_option maxRecDepth 100000 in
+example : (attest { queue := [exMNil], nextId := 9 } 9 (.tx { exP with data := exDataNil })).2 = .ok := by decide
+set_option maxRecDepth 100000 in
+example : (attest { queue := [exMNil], nextId := 9 } 9 (.tx exP)).2 = .notVerified := by decide
 set_option maxRecDepth 100000 in
 example : (attest exS 9 (.tx { exP with receipt := some 0 })).2 = .txFailed := by decide
 set_option maxRecDepth 100000 in
